@@ -270,4 +270,32 @@ def judge_file(path, shape, config, rejections, stats, asserts):
                 if why:
                     rejections.setdefault('C01', []).append(dict(
                         tag='wf-snap', what='after `%s`: %s' % (op.name, why), replay=replay_text(hdr, ops, idx)))
+                # C11: the registry changes only through the passes that also deliver the lifecycle callbacks — a state
+                # with handlers that becomes (in)active without `enter` (`exit`) in the same operation means that registry
+                # memory was overwritten (or lifecycle delivery is broken: C03 judges that separately)
+                prev = last_snap.get(op.inst)
+                if prev is not None and op.name != 'new':
+                    a0, a1 = int(prev['A'], 16), int(sn['A'], 16)
+                    if a0 != a1 or True:
+                        ent = set(int(e[1]) for e in op.events if e[0] == 'cb' and e[2] == 'enter')
+                        ext = set(int(e[1]) for e in op.events if e[0] == 'cb' and e[2] == 'exit')
+                        stats.inc('checks_C11_registry')
+                        for n in tree:
+                            if not (n.kind == 'L' or n.headed):
+                                continue
+                            was, now = a0 >> n.id & 1, a1 >> n.id & 1
+                            if now and not was and n.id not in ent:
+                                rejections.setdefault('C11', []).append(dict(
+                                    tag='silent-registry-change',
+                                    what='after `%s` state %d is reported active (A %s -> %s) although no `enter` was delivered to it in this '
+                                         'operation: the registry was written outside the lifecycle passes' % (op.name, n.id, prev['A'], sn['A']),
+                                    replay=replay_text(hdr, ops, idx)))
+                                break
+                            if was and not now and n.id not in ext:
+                                rejections.setdefault('C11', []).append(dict(
+                                    tag='silent-registry-change',
+                                    what='after `%s` state %d is no longer reported active (A %s -> %s) although no `exit` was delivered to it in '
+                                         'this operation: the registry was written outside the lifecycle passes' % (op.name, n.id, prev['A'], sn['A']),
+                                    replay=replay_text(hdr, ops, idx)))
+                                break
                 last_snap[op.inst] = sn
